@@ -1,3 +1,4 @@
 pub mod ctrlpoints;
 pub mod num;
 pub mod timing;
+pub mod curve_exact;
